@@ -61,6 +61,7 @@ JudgeLValid(e) ==
 
 Judge(e) ==
   CASE e.ev = "desctable" -> JudgeDescTable(e)
+    [] e.ev = "vpanic" -> <<"a validator panicked (validators answer true or false for every input)">>
     [] e.ev = "ctor" -> JudgeCtor(e)
     [] e.ev = "alias" -> When(~e.same, "a parsed descriptor changed when the buffer it was parsed from was overwritten (a descriptor is a value)")
     [] e.ev = "xaddr" -> JudgeXAddr(e)
